@@ -85,8 +85,8 @@ def run_shard(spec, ctx):
         cell = CELLS[ci]
         what = WHATS[(spec["k"] // 2 + i) % len(WHATS)] if spec["k"] >= 8 else WHATS[spec["k"] % len(WHATS)]
         # plan of the first case of each shard (all the quick tier runs): the 3-feature model with two sources is also FITTED (its logs plot 12 files,
-        # two full pages), and stays personalised by the second mixture shard
-        if spec["k"] == 4 and i % 2 == 0:
+        # two full pages) and stays personalised by the second mixture shard; so is the joint model
+        if spec["k"] in (4, 11) and i % 2 == 0:  # 11: the joint model with a source is also fitted (shard 3 personalises it)
             what = "fit"
         elif spec["k"] == 15 and i % 2 == 0:
             cell, what = CELLS[4], "mode_posterior"
